@@ -237,8 +237,14 @@ impl<AnyLoader: Loader> Context<AnyLoader> {
         };
         // Note: Should a "full stack" of bases be used here?
         // Or is this fine?
-        let url = relative(&from, url);
-        if let Some((path, mut file)) = self.do_find_file(&url, names)? {
+        let rel_url = relative(&from, url);
+        let found = match self.do_find_file(&rel_url, names)? {
+            // Not found relative to the loading file; try the url
+            // unchanged (in the base directory and the load paths).
+            None if rel_url != url => self.do_find_file(url, names)?,
+            found => found,
+        };
+        if let Some((path, mut file)) = found {
             let is_module = !from.is_import();
             let source = from.url(&path);
             let file = SourceFile::read(&mut file, source)?;
